@@ -59,3 +59,59 @@ Proof.
             h_time := [TVal 10]; h_cell := [CVal 10] |}.
   vm_compute. split; [reflexivity | discriminate].
 Qed.
+
+(* ------------------------------------------------------------------ partition independence of the write() PROGRAMS
+   The theorems of Proofs.v speak about the models; the lemmas sem_<fmt> (re-proved on every run) say the programs
+   translated from today's source mean those models.  Composed: for every ordered partition of the frames into
+   write calls, the program regenerated from /repo leaves the file md.load reads as the one-shot write. *)
+Lemma h5_program_partition : forall s parts,
+  h5_load (snd (run (sem h5_bk h5_write) (map (mk_batch s) parts) h5init)) =
+  h5_load (snd (run (sem h5_bk h5_write) [mk_batch s (List.concat parts)] h5init)).
+Proof. intros s parts. rewrite !h5_program_is_model. apply h5_fix_partition. Qed.
+
+Lemma nc_program_partition : forall s parts,
+  nc_load (snd (run (sem nc_bk nc_write) (map (mk_batch s) parts) ncinit)) =
+  nc_load (snd (run (sem nc_bk nc_write) [mk_batch s (List.concat parts)] ncinit)).
+Proof. intros s parts. rewrite !nc_program_is_model. apply nc_fix_partition. Qed.
+
+Lemma h5_program_history : forall h,
+  h5_load (snd (run (sem h5_bk h5_write) h h5init)) = expected_load h /\
+  fst (run (sem h5_bk h5_write) h h5init) = full_codes None h.
+Proof. intros h. rewrite h5_program_is_model. apply h5_fix_history. Qed.
+
+Lemma nc_program_history : forall h,
+  nc_load (snd (run (sem nc_bk nc_write) h ncinit)) = expected_load h /\
+  fst (run (sem nc_bk nc_write) h ncinit) = full_codes None h.
+Proof. intros h. rewrite nc_program_is_model. apply nc_fix_history. Qed.
+
+Lemma run_single {S : Type} (f : batch -> S -> res * S) b st : snd (run f [b] st) = snd (f b st).
+Proof. cbn [run]. destruct (f b st) as [r st']. reflexivity. Qed.
+
+Definition stream_partition_ok (lay : policy) (T : wprog) : Prop := forall s parts,
+  time_index_default lay = false \/ s_time s = true \/ store_time lay = false ->
+  sload (snd (run (sem (stream_bk lay) T) (map (mk_batch s) parts) sinit)) =
+  sload (snd (run (sem (stream_bk lay) T) [mk_batch s (List.concat parts)] sinit)).
+
+Lemma stream_program_partition lay T : stream_model lay T -> stream_partition_ok lay T.
+Proof.
+  intros Hm s parts Hc.
+  destruct (Hm (map (mk_batch s) parts)) as [_ H1]. destruct (Hm [mk_batch s (List.concat parts)]) as [_ H2].
+  rewrite H1, H2, run_single.
+  apply (stream_partition_independent (pol_of lay T) s parts sinit). exact Hc.
+Qed.
+
+Lemma stream_programs_partition :
+  stream_partition_ok pol_xdr xtc_write /\ stream_partition_ok pol_xdr trr_write /\
+  stream_partition_ok pol_dcd dcd_write /\ stream_partition_ok pol_mdcrd mdcrd_write /\
+  stream_partition_ok pol_xyz xyz_write /\ stream_partition_ok pol_lammpstrj lammpstrj_write /\
+  stream_partition_ok pol_gro gro_write /\ stream_partition_ok pol_pdb pdb_write /\
+  stream_partition_ok pol_dtr dtr_write.
+Proof.
+  destruct stream_programs_are_models as [H1 [H2 [H3 [H4 [H5 [H6 [H7 [H8 H9]]]]]]]].
+  repeat split; apply stream_program_partition; assumption.
+Qed.
+
+(* the DCD header count as dcdplugin.c:write_dcdstep maintains it today (the refresh interval is re-read from the C
+   source on every run): whatever the reader does with the count, every frame of a completed write is loaded *)
+Lemma dcd_header_durable : forall trust ops, hload trust (hrun dcd_header_every ops) = written ops.
+Proof. rewrite dcd_header_every_frame. exact header_count_durable. Qed.
